@@ -39,6 +39,34 @@ def _is_arr(ty, dim1=None, mutview=False):
     return one if dim1 else (not one if dim1 is False else True)
 
 
+def solver_param_roles(lib, ps):
+    """the parameters of the tridiagonal solver, in any order: one mutable lane view (k: 'k'), one other lane array (rhs: 'rhs') and
+    exactly three 1-D coefficient arrays, passed one by one ('coef') or as the fields of a private struct ('coefs'); None if `ps` is not that"""
+    adts = {a['path']: a for a in lib.f.get('adts', [])}
+    roles = []
+    ncoef = 0
+    for ty in ps:
+        t = strip_generics(ty.lstrip('&').replace('mut ', '', 1).strip())
+        if _is_arr(ty, dim1=True):
+            roles.append('coef')
+            ncoef += 1
+        elif t.startswith('ndarray::ArrayBase') and 'ViewRepr<&mut ' in ty.replace("&'a mut", '&mut'):
+            roles.append('k')
+        elif _is_arr(ty, dim1=False):
+            roles.append('rhs')
+        elif t in adts and adts[t].get('kind') == 'Struct' and adts[t].get('variants'):
+            n1 = sum(1 for f_ in adts[t]['variants'][0]['fields'] if _is_arr(f_['ty'], dim1=True))
+            if n1 == 0:
+                return None
+            roles.append('coefs')
+            ncoef += n1
+        else:
+            return None
+    if roles.count('k') != 1 or roles.count('rhs') != 1 or ncoef != 3:
+        return None
+    return roles
+
+
 def resolve(lib):
     fns = _fn_bodies(lib)
     al = {}
@@ -78,12 +106,12 @@ def resolve(lib):
         return None
 
     def is_solver(p):
-        ps = params(p)
-        if len(ps) < 3 or 'ViewRepr<&mut ' not in ps[0] or not _is_arr(ps[-1], dim1=False):
-            return False
-        mids = [coeff_arrays(t) for t in ps[1:-1]]
-        return all(m is not None for m in mids) and sum(mids) == 3
+        return solver_param_roles(lib, params(p)) is not None
     th = [p for p in reach if is_solver(p)]
+    if len(th) > 1:
+        # a solver split into phases that each look like one: the outermost (not called by another candidate) is the solver
+        inner = {c for p in th for c in _callees(lib, fns[p], fns) if c in th and c != p}
+        th = [p for p in th if p not in inner]
     if len(th) == 1:
         al['CubicSpline::thomas'] = th[0]
     thomas = al.get('CubicSpline::thomas', 'CubicSpline::thomas')
